@@ -157,103 +157,18 @@ func runCT2(c *load.Ctx, r *report.RuleResult) {
 		case "normalizeFileContent":
 			found["normalize"] = true
 			key := "content|fs.normalizeFileContent|returns"
-			if fd.Type.Params == nil || len(fd.Type.Params.List) != 1 || len(fd.Type.Params.List[0].Names) != 1 {
-				r.Unk(key, pos, "unexpected parameter list")
-				return
-			}
-			param := pk.TypesInfo.Defs[fd.Type.Params.List[0].Names[0]]
-			// identifiers that stand for the parameter: the parameter, and the symbol a type switch over
-			// any(parameter) binds
-			same := map[types.Object]bool{param: true}
-			var isParam func(e ast.Expr) bool
-			isParam = func(e ast.Expr) bool {
-				switch x := ast.Unparen(e).(type) {
-				case *ast.Ident:
-					return same[pk.TypesInfo.Uses[x]] || same[pk.TypesInfo.Defs[x]]
-				case *ast.CallExpr:
-					// a conversion T(x), any(x)
-					if tv, ok := pk.TypesInfo.Types[x.Fun]; ok && tv.IsType() && len(x.Args) == 1 {
-						return isParam(x.Args[0])
-					}
-				case *ast.TypeAssertExpr:
-					return isParam(x.X)
-				}
-				return false
-			}
-			ast.Inspect(fd.Body, func(n ast.Node) bool {
-				ts, ok := n.(*ast.TypeSwitchStmt)
-				if !ok {
-					return true
-				}
-				if as, ok := ts.Assign.(*ast.AssignStmt); ok && len(as.Rhs) == 1 && isParam(as.Rhs[0]) {
-					for _, cl := range ts.Body.List {
-						if obj := pk.TypesInfo.Implicits[cl]; obj != nil {
-							same[obj] = true
-						}
-					}
-				}
-				return true
-			})
-			// a local that is only ever assigned the parameter (or a conversion of it) stands for it too
-			for changed := true; changed; {
-				changed = false
-				assigned := map[types.Object][]ast.Expr{}
-				ast.Inspect(fd.Body, func(n ast.Node) bool {
-					switch x := n.(type) {
-					case *ast.AssignStmt:
-						if len(x.Lhs) == len(x.Rhs) {
-							for i, l := range x.Lhs {
-								if id, ok := l.(*ast.Ident); ok {
-									obj := pk.TypesInfo.Defs[id]
-									if obj == nil {
-										obj = pk.TypesInfo.Uses[id]
-									}
-									if obj != nil {
-										assigned[obj] = append(assigned[obj], x.Rhs[i])
-									}
-								}
-							}
-						}
-					case *ast.IncDecStmt, *ast.RangeStmt:
-						return true
-					}
-					return true
-				})
-				for obj, rhs := range assigned {
-					if same[obj] || obj == param {
-						continue
-					}
-					all := true
-					for _, e := range rhs {
-						if !isParam(e) {
-							all = false
-						}
-					}
-					if all {
-						same[obj] = true
-						changed = true
+			decls := map[string]*ast.FuncDecl{}
+			for _, f := range pk.Syntax {
+				for _, d := range f.Decls {
+					if g, ok := d.(*ast.FuncDecl); ok && g.Recv == nil {
+						decls[g.Name.Name] = g
 					}
 				}
 			}
-			var bad []string
-			nret := 0
-			ast.Inspect(fd.Body, func(n ast.Node) bool {
-				if _, ok := n.(*ast.FuncLit); ok {
-					return false
-				}
-				rs, ok := n.(*ast.ReturnStmt)
-				if !ok {
-					return true
-				}
-				for _, e := range rs.Results {
-					nret++
-					if !isParam(e) {
-						bad = append(bad, fmt.Sprintf("%s returns %s", c.Pos(rs.Pos()), types.ExprString(e)))
-					}
-				}
-				return true
-			})
+			bad, nret, why := ctParamFlow(c, pk, fd, decls, 0)
 			switch {
+			case why != "":
+				r.Unk(key, pos, why)
 			case nret == 0:
 				r.Unk(key, pos, "no return statement found")
 			case len(bad) > 0:
@@ -309,4 +224,131 @@ func runCT2(c *load.Ctx, r *report.RuleResult) {
 			r.Unk("anchor|fs "+k, "", "function not found in package fs")
 		}
 	}
+}
+
+// ctParamFlow: is the first result of every return of fd its (only) parameter, a conversion or type
+// assertion of it, a local only ever assigned those, or the first result of a helper of the same
+// package of which the same holds, called on such a value?
+func ctParamFlow(c *load.Ctx, pk *packages.Package, fd *ast.FuncDecl, decls map[string]*ast.FuncDecl, depth int) (bad []string, nret int, why string) {
+	if fd.Type.Params == nil || len(fd.Type.Params.List) != 1 || len(fd.Type.Params.List[0].Names) != 1 {
+		return nil, 0, "unexpected parameter list of " + fd.Name.Name
+	}
+	param := pk.TypesInfo.Defs[fd.Type.Params.List[0].Names[0]]
+	same := map[types.Object]bool{param: true}
+	var isParam func(e ast.Expr) bool
+	helperOK := map[string]bool{}
+	isParam = func(e ast.Expr) bool {
+		switch x := ast.Unparen(e).(type) {
+		case *ast.Ident:
+			return same[pk.TypesInfo.Uses[x]] || same[pk.TypesInfo.Defs[x]]
+		case *ast.CallExpr:
+			if tv, ok := pk.TypesInfo.Types[x.Fun]; ok && tv.IsType() && len(x.Args) == 1 {
+				return isParam(x.Args[0])
+			}
+			if id, ok := x.Fun.(*ast.Ident); ok && len(x.Args) == 1 && depth < 2 {
+				if g := decls[id.Name]; g != nil && g != fd && g.Body != nil {
+					okH, done := helperOK[id.Name]
+					if !done {
+						b2, n2, w2 := ctParamFlow(c, pk, g, decls, depth+1)
+						okH = w2 == "" && n2 > 0 && len(b2) == 0
+						helperOK[id.Name] = okH
+					}
+					return okH && isParam(x.Args[0])
+				}
+			}
+		case *ast.TypeAssertExpr:
+			return isParam(x.X)
+		}
+		return false
+	}
+	ast.Inspect(fd.Body, func(n ast.Node) bool {
+		ts, ok := n.(*ast.TypeSwitchStmt)
+		if !ok {
+			return true
+		}
+		var subject ast.Expr
+		switch a := ts.Assign.(type) {
+		case *ast.AssignStmt:
+			if len(a.Rhs) == 1 {
+				subject = a.Rhs[0]
+			}
+		}
+		if subject != nil && isParam(subject) {
+			for _, cl := range ts.Body.List {
+				if obj := pk.TypesInfo.Implicits[cl]; obj != nil {
+					same[obj] = true
+				}
+			}
+		}
+		return true
+	})
+	for changed := true; changed; {
+		changed = false
+		assigned := map[types.Object][]ast.Expr{}
+		ast.Inspect(fd.Body, func(n ast.Node) bool {
+			x, ok := n.(*ast.AssignStmt)
+			if !ok {
+				return true
+			}
+			objOf := func(l ast.Expr) types.Object {
+				id, ok := l.(*ast.Ident)
+				if !ok {
+					return nil
+				}
+				if o := pk.TypesInfo.Defs[id]; o != nil {
+					return o
+				}
+				return pk.TypesInfo.Uses[id]
+			}
+			switch {
+			case len(x.Lhs) == len(x.Rhs):
+				for i, l := range x.Lhs {
+					if o := objOf(l); o != nil {
+						assigned[o] = append(assigned[o], x.Rhs[i])
+					}
+				}
+			case len(x.Rhs) == 1 && len(x.Lhs) >= 1:
+				// v, ok := x.(T)   /   b, ok := helper(x): the first variable carries the value
+				if o := objOf(x.Lhs[0]); o != nil {
+					assigned[o] = append(assigned[o], x.Rhs[0])
+				}
+			}
+			return true
+		})
+		for obj, rhs := range assigned {
+			if same[obj] || obj == param {
+				continue
+			}
+			all := true
+			for _, e := range rhs {
+				if !isParam(e) {
+					all = false
+				}
+			}
+			if all {
+				same[obj] = true
+				changed = true
+			}
+		}
+	}
+	ast.Inspect(fd.Body, func(n ast.Node) bool {
+		if _, ok := n.(*ast.FuncLit); ok {
+			return false
+		}
+		rs, ok := n.(*ast.ReturnStmt)
+		if !ok || len(rs.Results) == 0 {
+			return true
+		}
+		nret++
+		e := rs.Results[0]
+		// a zero value next to ok == false (return nil, false) says "not mine", not a content
+		if id, isID := ast.Unparen(e).(*ast.Ident); isID && id.Name == "nil" && len(rs.Results) == 2 {
+			return true
+		}
+		if !isParam(e) {
+			bad = append(bad, fmt.Sprintf("%s returns %s", c.Pos(rs.Pos()), types.ExprString(e)))
+		}
+		return true
+	})
+	return bad, nret, ""
 }
